@@ -13,7 +13,7 @@ PROPERTY = 'C03'
 LEVEL = 'exploration'
 RULE = ('seeded histories: 1..3 sessions x mode {polling, websocket-only, '
         'upgrade at a random point, failed upgrade then polling, failed then '
-        'successful upgrade} x 2..14 sends (text/JSON/binary) x poll '
+        'successful upgrade} x 2..14 sends (text/JSON/binary) and bursts of 17..40 x poll '
         'discipline {sequential, overlapping pair, late} x heartbeats '
         'answered; threaded server under seeded random cooperative schedules '
         '(+ yield at signalling operations), asyncio server with a seeded '
@@ -31,6 +31,7 @@ ASSUMPTIONS = ['"the upgrade has begun" = the handler\'s first read on the '
                'the other was called; overlapping polls leave cross-response '
                'order undefined']
 REQUIRED = ['at_most_once', 'order_pairs', 'poll_returns_all', 'noop_only',
+            'bursts_over_16',
             'completeness', 'late_poll_positions']
 SHARD_TIMEOUT = {'quick': 400, 'thorough': 3000}
 
@@ -230,7 +231,12 @@ def run_history(rec, case):
         for _ in range(nact):
             s = rng.choice(R.S)
             k = rng.random()
-            if k < 0.5:
+            if k < 0.06:
+                # a burst larger than any per-payload packet limit
+                for _ in range(rng.choice([17, 18, 24, 40])):
+                    R.send(s, rng.choice(['text', 'json', 'binary']))
+                rec.count('bursts_over_16')
+            elif k < 0.5:
                 R.send(s, rng.choice(['text', 'json', 'binary']))
             elif k < 0.7 and s.mode == 'polling':
                 if not s.autopoll or rng.random() < 0.15:
